@@ -163,6 +163,13 @@ impl GenerationPass for AvailableValuePass {
                 if let Some((reg, reg_value)) = node.gen_reg_value() {
                     out_reg_n.insert(reg, reg_value);
                 }
+                if node.is_ecall() {
+                    // An environment call writes its result registers
+                    let results = node
+                        .known_ecall_signature()
+                        .map_or(Register::program_args_set(), |(_, results)| results);
+                    out_reg_n -= results.iter();
+                }
                 if node.is_handler_function_entry() {
                     out_reg_n.extend(Register::all_writable_set().into_available_values());
                 }
